@@ -416,6 +416,12 @@ class Model(object):
             if isinstance(it, (range, list, tuple, str)) and isinstance(g.target, ast.Name) and not g.ifs:
                 if len(it) > 0x110000:
                     return Opaque('comprehension too large')
+                # fast path: chr(c) for c in range(a, b)
+                if isinstance(it, range) and isinstance(node.elt, ast.Call) and len(node.elt.args) == 1 \
+                        and norm(node.elt.func) in ('six.unichr', 'chr', 'unichr') \
+                        and isinstance(node.elt.args[0], ast.Name) and node.elt.args[0].id == g.target.id \
+                        and (len(it) == 0 or (0 <= it[0] <= 0x10FFFF and 0 <= it[-1] <= 0x10FFFF)):
+                    return [chr(x) for x in it]
                 out = []
                 for x in it:
                     e2 = dict(env)
